@@ -12,6 +12,8 @@ mkdir -p work evidence replays
 TWO_PROFILE=" C01 C02 C03 C04 C05 C06 C07 C08 C09 C10 C11 C12 C13 C14 C15 C16 C17 C18 C19 C20 "
 RELCHECK_BIN="$ROOT/target/relcheck/mqv"
 RELEASE_BIN="$ROOT/target/release/mqv"
+DEV_BIN="$ROOT/target/devcheck/mqv"
+DEEP_IDS=" C03 C16 C17 C18 "
 
 build() { # $1 = profile
   local log="work/build-$1-$$.log"
@@ -56,6 +58,7 @@ SEED="${VERIF_SEED:-0}"
 build relcheck
 EXTRA=()
 case "$TWO_PROFILE" in *" $ID "*) build release; EXTRA=(--release-bin "$RELEASE_BIN");; esac
+case "$DEEP_IDS" in *" $ID "*) build devcheck; EXTRA+=(--dev-bin "$DEV_BIN");; esac
 if [ "$TIER" = thorough ]; then LIMIT=5400; else LIMIT=900; fi
 FUZZ_IDS=" C03 C04 C06 C11 C12 "
 if [ "$TIER" = thorough ] && [ "${MQV_NO_FUZZ:-0}" != 1 ]; then
